@@ -234,6 +234,34 @@ func c19Churn(x *Ctx) {
 			}
 		}
 	})
+	if x.C.Seed%2 == 0 {
+		// two more connections, one of which negotiated so small an msize (24..31) that the framework's own error
+		// texts have to be cut down for it, provoke the same framework errors at the same time
+		for k := 0; k < 2; k++ {
+			k := k
+			ms := uint32(8192)
+			if k == 0 {
+				ms = uint32(24 + x.C.Seed/2%8)
+			}
+			rt.Go(rt.SiteSpawn, func() {
+				rt.SetName(fmt.Sprintf("error-provoker%d", k))
+				rt.HarnessOnly()
+				sc := w.sys.AddConn(0, int(x.C.cfg("seg")))
+				p := sc.Peer
+				if r := p.Call(&Msg{Type: Tversion, Tag: NOTAG, Msize: ms, Version: "9P2000"}); r == nil || r.M == nil || r.M.Type != Rversion {
+					return
+				}
+				p.Call(&Msg{Type: Tattach, Tag: 1, Fid: 0, Afid: NOFID, Uname: "u", Nuname: 1})
+				for i := 0; i < 4; i++ {
+					p.Call(&Msg{Type: Tattach, Tag: 2, Fid: 0, Afid: NOFID, Uname: "u", Nuname: 1}) // fid already in use
+					p.Call(&Msg{Type: Tauth, Tag: 3, Afid: 5, Uname: "u", Nuname: 1})                // no authentication required
+					p.Call(&Msg{Type: Topen, Tag: 4, Fid: 0, Mode: 1})                                 // a directory, for writing
+				}
+				sc.Clnt.Close()
+			})
+		}
+		x.Probe("framework-errors-on-a-tiny-msize-connection")
+	}
 	w.RunPhases()
 }
 
